@@ -88,8 +88,10 @@ def p_lazy(ctx):
     parallel(lambda n: run_tlc_config(n, emit=True), names)
     for n in names:
         stages.stage_lazy(ctx, n, max_run=150, bases=(0,) if ctx.quick() else (0, core.BASES["2^64-40"]))
+    stages.stage_sim_lookups(ctx, "LazySim", num=150 if ctx.quick() else 3000, depth=40, per_step=12, p_lookup=0.15)
     if not stages.WARM:
         lazy_index_stage(ctx)
+        lazy_class_stage(ctx)
     ctx.assumptions.append("the hook-reported get() branch is coverage evidence only; verdicts use public answers")
     return "model_checking", RULE_LOOKUP + "; schedules: the spec's Lookup actions are interleaved with edits in every order the bounded model allows"
 
@@ -113,6 +115,92 @@ def lazy_index_stage(ctx):
                        "transitions": r.generated, "depth": r.depth,
                        "actions_never_taken": sorted(k for k, v in r.coverage.items() if v[1] == 0)})
     ctx.log("mc LazyIndex: %d states, %d transitions" % (r.distinct, r.generated))
+
+
+class LazyClassEnv:
+    """a real gtirb.lazyintervaltree.LazyIntervalTree over a real collection, driven by LazyIndex.tla"""
+
+    class V:
+        def __init__(self, name):
+            self.name, self.has, self.off, self.sz = name, True, 0, 0
+
+    def __init__(self, vals):
+        from gtirb.lazyintervaltree import LazyIntervalTree
+        from intervaltree import Interval
+        self.vals = {n: self.V(n) for n in vals}
+        self.coll = set()
+        self.tree = LazyIntervalTree(self.coll, lambda v: Interval(v.off, v.off + v.sz + 1, v) if v.has else None)
+
+    def step(self, op):
+        n = op["name"]
+        if n == "add":
+            v = self.vals[op["v"]]
+            self.tree.add(v)
+            self.coll.add(v)
+        elif n == "discard":
+            v = self.vals[op["v"]]
+            self.tree.discard(v)
+            self.coll.discard(v)
+        elif n == "setkey":
+            v = self.vals[op["v"]]
+            if v in self.coll:
+                self.tree.discard(v)
+            v.has, v.off, v.sz = op["h"], op["o"], op["s"]
+            if v in self.coll:
+                self.tree.add(v)
+        elif n == "get":
+            return sorted([iv.begin, iv.end, iv.data.name] for iv in self.tree.get())
+        return "none"
+
+
+def lazy_class_stage(ctx):
+    """spec -> code for the class itself: random behaviours of LazyIndex.tla (5 values, long event queues)
+    replayed on a real LazyIntervalTree; every get() must return the materialisation the spec computes"""
+    import glob
+    import os
+    from . import tlc, tlaparse
+    from .build import MachineryFailure
+    try:
+        import gtirb.lazyintervaltree  # noqa
+    except Exception as e:   # an implementation without this class is not wrong (DESIGN rule 1)
+        ctx.stages.append({"stage": "lazy-class-replay", "skipped": "no gtirb.lazyintervaltree: %s" % e})
+        return
+    vals = {"b1", "b2", "b3", "b4", "b5"}
+    cfg = tlc.render_cfg({"Vals": vals, "Offs": {0, 1, 3}, "Sizes": {0, 2}, "MaxEv": 9},
+                         invariants=["LazyInv", "GetIsFresh"], constraints=["Bound"])
+    num = 400 if ctx.quick() else 6000
+    r = tlc.run("LazyIndex", cfg, workers=1, simulate=num, depth=60, seed=ctx.seed + 9, want_records=False)
+    if r.errors or r.violation:
+        raise MachineryFailure("LazyIndex simulate: %s" % (r.errors or [r.violation])[0][:800])
+    gets = steps = 0
+    branches = {}
+    for path in sorted(glob.glob(os.path.join(r.workdir, "sim", "b_*"))):
+        env = LazyClassEnv(vals)
+        hist = []
+        for st in tlaparse.parse_behaviour(open(path).read())[1:]:
+            op = st["op"]
+            hist.append({k: v for k, v in op.items() if k != "res"})
+            try:
+                got = env.step(op)
+            except Exception as e:
+                got = {"exc": type(e).__name__}
+            steps += 1
+            if op["name"] == "get":
+                gets += 1
+                branches[op["branch"]] = branches.get(op["branch"], 0) + 1
+                want = sorted(op["res"])
+                if got != want:
+                    ctx.violations.append({"kind": "lazy-class", "props": ["C12"], "op": hist[-1], "expected": want,
+                                           "observed": got, "history": hist, "config": "LazyIndex.tla",
+                                           "signature": "lazyclass:get/%s" % op["branch"]})
+                    break
+        else:
+            ctx.traces += 1
+    ctx.evaluations += steps
+    ctx.transitions += steps
+    ctx.stages.append({"stage": "lazy-class-replay", "spec": "LazyIndex.tla", "behaviours": num, "steps": steps,
+                       "get_calls_compared": gets, "spec_branches": branches, "values": 5, "max_pending_events": 9})
+    ctx.log("LazyIndex class replay: %d behaviours, %d get() compared, branches %s" % (num, gets, branches))
 
 
 @plan("C10")
